@@ -65,8 +65,8 @@ def fmt_cli(src, width, workdir, overwrite=False):
     from .. import refcodec as rc, carts
     import random
     regions, _ = carts.random_regions(random.Random(3), 'zero')
-    p1 = os.path.join(workdir, 'f.p8')
-    pf = os.path.join(workdir, 'f_fmt.p8')
+    p1 = os.path.join(workdir, ambient.BASE[0] + '.p8')
+    pf = os.path.join(workdir, ambient.BASE[0] + '_fmt.p8')
     if os.path.exists(pf):
         os.remove(pf)
     with open(p1, 'wb') as fh:
